@@ -151,8 +151,38 @@ def main():
                 fails.append({"archive": desc, "wrap": wrap, "problem": f"exception {type(e).__name__}: {e}"})
         if expected:
             distinct += 1
+    # two archives alive in one process that contain a byte-identical header block at different positions (a visor tar with an in-line
+    # ustar member, and a plain tar with the same member header): each must extract its own bytes, whichever was opened or listed first
+    def pad(b):
+        return b + b"\x00" * ((512 - len(b) % 512) % 512)
+
+    for k in range(4):
+        n = rng.choice([5, 300, 512, 700])
+        boot_v = bytes((3 * j + k) & 0xFF for j in range(n))
+        boot_p = bytes((5 * j + 1 + k) & 0xFF for j in range(n))
+        big = bytes((7 * j) & 0xFF for j in range(1500))
+        hb = ustar_header("boot.cfg", n)
+        off_big = 512 * 2 + len(pad(boot_v)) + 1024 + 512
+        V = ustar_header("big.bin", len(big), b"0", b"visor  ", {496: off_big, 504: 1, 508: 0}) + hb + pad(boot_v) + b"\x00" * 1024
+        V = V + b"\x00" * (off_big - len(V)) + big
+        first = bytes(range(256)) * 3
+        P = ustar_header("first.txt", len(first)) + pad(first) + hb + pad(boot_p) + b"\x00" * 1024
+        evals += 1
+        try:
+            order = [("V", V, {"big.bin": big, "boot.cfg": boot_v}), ("P", P, {"first.txt": first, "boot.cfg": boot_p})]
+            if k % 2:
+                order.reverse()
+            opened = [(nm_, vmtar.open(fileobj=io.BytesIO(raw_), mode="r:"), exp_) for nm_, raw_, exp_ in order]
+            listed = [(nm_, t_, t_.getmembers(), exp_) for nm_, t_, exp_ in opened]  # both listed before anything is extracted
+            for nm_, t_, mem_, exp_ in listed:
+                got = {m_.name: t_.extractfile(m_).read() for m_ in mem_}
+                if got != exp_:
+                    bad = [x for x in exp_ if got.get(x) != exp_[x]]
+                    fails.append({"archive": {"pair": k, "which": nm_, "opened_first": order[0][0]}, "wrap": "plain", "problem": f"two archives open at once: members {bad} of archive {nm_} extract the wrong bytes"})
+        except Exception as e:  # noqa: BLE001
+            fails.append({"archive": {"pair": k}, "wrap": "plain", "problem": f"two archives open at once: exception {type(e).__name__}: {e}"})
     json.dump({"evaluations": evals, "distinct": distinct, "failures": fails[:5], "n_failures": len(fails),
-               "rule": "generated archives: 0-6 members (files of 1..4096 bytes, empty files, directories, long and non-ASCII names), visor members with data areas in shuffled order and arbitrary alignment / plain ustar, each plain, gzip-wrapped (explicit and default mode) and wrapped as a two-member gzip stream; oracle = the generated contents, and the stdlib reader for non-visor archives"}, sys.stdout)
+               "rule": "generated archives: 0-6 members (files of 1..4096 bytes, empty files, directories, long and non-ASCII names), visor members with data areas in shuffled order and arbitrary alignment / plain ustar, each plain, gzip-wrapped (explicit and default mode) and wrapped as a two-member gzip stream; pairs of archives with a byte-identical member header open at the same time; oracle = the generated contents, and the stdlib reader for non-visor archives"}, sys.stdout)
 
 
 if __name__ == "__main__":
